@@ -965,3 +965,224 @@ _r, _p = ReinitNewObjects(), ContainerPostprocessing()
 _r.havoc = _reinit_havoc.__get__(_r)
 _p.havoc = _post_havoc.__get__(_p)
 CONTRACTS += [_r, _p] + [MetaReset(nm, nd) for nm in ("reinit_new_objects", "refinement_postprocessing") for nd in (1, 2)]
+
+
+# --------------------------------------------------------------------------- end of a refinement step: coarsening levels and lmax are brought back in line
+# C06: "every interval's coarsening level equals the dimension's maximum level minus the interval's highest end-point level and is never negative,
+# the maximum level per dimension is at least the deepest level present" -- established by SpatiallyAdaptiveSingleDimensions2.refinement_postprocessing
+# whatever removal / sorting / rebalancing did to the containers before.
+Update.applies = lambda self, receiver, args: "a" in receiver.fields            # the single-object contract speaks about a full interval object
+for _c in CONTRACTS:
+    if isinstance(_c, MetaReset):
+        _c.applies = lambda receiver, args: False                               # proved above; callers use the caller-side forms below
+
+
+def coarse_container(S, tag=""):
+    n = S.int("n" + tag)
+    S.assume(n >= 0)
+    objs = ObjSeq("RefinementObjectSingleDimension", n, dict(coarsening_level=S.array("coarsening" + tag, I, I), levels=[S.array("l0" + tag, I, I), S.array("l1" + tag, I, I)]))
+    return Obj("RefinementContainer", dict(refinementObjects=objs, dim=1, startNewObjects=S.int("startNewObjects" + tag), searchPosition=S.int("searchPosition" + tag)))
+
+
+def deepest_level(objs, j):
+    l0, l1 = objs.fields["levels"]
+    return zmax(z3.Select(l0, j), z3.Select(l1, j))
+
+
+class UpdateValues(Contract):
+    """RefinementContainer.update_values (any container size): every interval's coarsening level moves by the update and none becomes negative"""
+    file, qualname = RC_FILE, "RefinementContainer.update_values"
+    inline = ("RefinementObjectSingleDimension.update", "update")
+
+    def inputs(self, S):
+        return {"self": coarse_container(S), "update_info": S.int("update_info")}
+
+    def pre(self, S, env):
+        o = env["self"].fields["refinementObjects"]
+        j = z3.Int("vj")
+        return [("no-coarsening-level-becomes-negative", z3.ForAll([j], z3.Implies(z3.And(j >= 0, j < o.length), z3.Select(o.fields["coarsening_level"], j) + env["update_info"] >= 0)))]
+
+    def inv(self, S, env, g):
+        o, oo = env["self"].fields["refinementObjects"], S.ex.old["self"].fields["refinementObjects"]
+        c, c0 = o.fields["coarsening_level"], oo.fields["coarsening_level"]
+        j = z3.Int("ij")
+        k = g["k"]
+        return [("updated-prefix", z3.ForAll([j], z3.Implies(z3.And(j >= 0, j < k), z3.Select(c, j) == z3.Select(c0, j) + S.ex.old["update_info"]))),
+                ("untouched-suffix", z3.ForAll([j], z3.Implies(j >= k, z3.Select(c, j) == z3.Select(c0, j)))),
+                ("levels-and-size-untouched", z3.And(o.fields["levels"][0] == oo.fields["levels"][0], o.fields["levels"][1] == oo.fields["levels"][1], V(o.length) == V(oo.length),
+                                                     env["update_info"] == S.ex.old["update_info"]))]
+
+    @property
+    def loops(self):
+        return {0: Loop(inv=lambda S, env, g: self.inv(S, env, g), element_fields_written=("coarsening_level",))}
+
+    def havoc(self, S, cenv, tag):
+        o = cenv["self"].fields["refinementObjects"]
+        o.fields["coarsening_level"] = S.array(tag + ".coarsening", I, I)
+
+    def post(self, S, old, env, result):
+        o, oo = env["self"].fields["refinementObjects"], old["self"].fields["refinementObjects"]
+        c, c0 = o.fields["coarsening_level"], oo.fields["coarsening_level"]
+        j = z3.Int("pj")
+        return [Cl("every-coarsening-level-moves-by-the-update", z3.ForAll([j], z3.Implies(z3.And(j >= 0, j < oo.length), z3.Select(c, j) == z3.Select(c0, j) + old["update_info"]))),
+                Cl("no-coarsening-level-is-negative-afterwards", z3.ForAll([j], z3.Implies(z3.And(j >= 0, j < oo.length), z3.Select(c, j) >= 0)), prop=True),
+                Cl("levels-and-size-untouched", z3.And(o.fields["levels"][0] == oo.fields["levels"][0], o.fields["levels"][1] == oo.fields["levels"][1], V(o.length) == V(oo.length)))]
+
+
+def _ucv_havoc(self, S, cenv, tag):
+    o = cenv["refinement_container_d"].fields["refinementObjects"]
+    o.fields["coarsening_level"] = S.array(tag + ".coarsening", I, I)
+
+
+for _c in CONTRACTS:
+    if isinstance(_c, UpdateCoarseningValues):
+        _c.havoc = _ucv_havoc.__get__(_c)         # caller-side frame: the coarsening levels of the container handed in are rewritten
+        _c.result = lambda S, env: S.int("update_d")
+
+
+class _PostStep(Contract):
+    """abstract steps of refinement_postprocessing: what they may change is havoced, nothing is promised about it"""
+    trusted = True
+
+    def __init__(self, file, qualname, params, note, havoc=None, post=None, result=None):
+        self.file, self.qualname, self._params, self.note, self._havoc, self._post, self._result = file, qualname, params, note, havoc, post, result
+
+    def inputs(self, S):
+        d = {"self": Obj(self.qualname.split(".")[0], {})}
+        for p in self._params:
+            d[p] = None
+        return d
+
+    def applies(self, receiver, args):
+        return True
+
+    def havoc(self, S, cenv, tag):
+        if self._havoc:
+            self._havoc(S, cenv, tag)
+
+    def result(self, S, env):
+        return self._result(S) if self._result else None
+
+    def post(self, S, old, env, result):
+        return self._post(S, old, env, result) if self._post else []
+
+
+def _h_apply_remove(S, cenv, tag):
+    # removal of the split intervals + sorting: any number of intervals with any levels / coarsening levels may be left in every dimension
+    for c, cont in enumerate(cenv["self"].fields["refinementContainers"].items):
+        f = cont.fields
+        f["refinementObjects"] = S.like(f["refinementObjects"], "%s.objects%d" % (tag, c))
+        f["startNewObjects"] = S.int("%s.startNewObjects%d" % (tag, c))
+
+
+def _h_meta_post(S, cenv, tag):
+    for cont in cenv["self"].fields["refinementContainers"].items:
+        cont.fields["searchPosition"] = 0
+
+
+def _h_meta_reinit(S, cenv, tag):
+    cenv["self"].fields["curContainer"] = 0
+    for cont in cenv["self"].fields["refinementContainers"].items:
+        cont.fields["startNewObjects"] = 0
+
+
+def _h_rebalance(S, cenv, tag):
+    # level rotation inside dimension d: the end-point levels (and nothing that the coarsening update does not recompute) of that dimension may change
+    d = cenv["d"]
+    conts = cenv["self"].fields["refinement"].fields["refinementContainers"].items
+    for c, cont in enumerate(conts):
+        if isinstance(d, int) and c != d:
+            continue
+        o = cont.fields["refinementObjects"]
+        o.fields["levels"] = [S.array("%s.l0_%d" % (tag, c), I, I), S.array("%s.l1_%d" % (tag, c), I, I)]
+        o.fields["coarsening_level"] = S.array("%s.coarsening%d" % (tag, c), I, I)
+
+
+def _h_raise_lmax(S, cenv, tag):
+    lm = cenv["self"].fields["lmax"]
+    nv = Seq(lm.kind, None, lm.len(), S.array(tag + ".lmax", I, I))
+    lm.items, lm.length, lm.arr = None, nv.length, nv.arr
+
+
+def _p_raise_lmax(S, old, env, result):
+    lm, lm0 = env["self"].fields["lmax"], old["self"].fields["lmax"].to_symbolic()
+    k = z3.Int("rk")
+    d, v = V(old["d"]), V(old["value"])
+    return [Cl("lmax-of-the-dimension-raised-by-the-value", z3.Select(lm.arr, d) == z3.Select(lm0.arr, d) + v),
+            Cl("other-dimensions-untouched", z3.ForAll([k], z3.Implies(k != d, z3.Select(lm.arr, k) == z3.Select(lm0.arr, k))))]
+
+
+SD_STEPS = [_PostStep(RC_FILE, "MetaRefinementContainer.apply_remove", ["sort"], "removal of the split intervals and sorting by start (tiling: layer B)", havoc=_h_apply_remove),
+            _PostStep(RC_FILE, "MetaRefinementContainer.refinement_postprocessing", [], "proved separately (MetaReset): selection cursors back to 0", havoc=_h_meta_post),
+            _PostStep(RC_FILE, "MetaRefinementContainer.reinit_new_objects", [], "proved separately (MetaReset): markers and per-object results reset", havoc=_h_meta_reinit),
+            _PostStep(SD_FILE, "SpatiallyAdaptiveSingleDimensions2.rebalance", ["d"], "tree rebalancing by level rotation in dimension d (layer B): arbitrary new end-point levels in that dimension", havoc=_h_rebalance),
+            _PostStep(SD_FILE, "SpatiallyAdaptiveSingleDimensions2.raise_lmax", ["d", "value"], "raises lmax[d] by value and extends the index set (C01 contract of update_adaptive_combi); the fix-point loop over the active indices is not verified",
+                      havoc=_h_raise_lmax, post=_p_raise_lmax),
+            _PostStep("sparseSpACE/combiScheme.py", "CombiScheme.getCombiScheme", ["lmin", "lmax", "do_print"], "the combination scheme of the current index set (C01)", result=lambda S: Opaque_list(S))]
+SD_STEPS[-1].defaults = {"lmin": None, "lmax": None, "do_print": True}
+
+
+class PostprocessingBody(Contract):
+    """SpatiallyAdaptiveSingleDimensions2.refinement_postprocessing (1-2 dimensions, any container sizes, rebalancing on or off): whatever removal, sorting and
+    rebalancing left behind, afterwards every interval's coarsening level is lmax[d] - its highest end-point level and is not negative"""
+    file, qualname = SD_FILE, "SpatiallyAdaptiveSingleDimensions2.refinement_postprocessing"
+    inline = ("MetaRefinementContainer.get_refinement_container_for_dim", "get_refinement_container_for_dim")
+
+    def __init__(self, ndim):
+        self.ndim = ndim
+        self.label = "SpatiallyAdaptiveSingleDimensions2.refinement_postprocessing[coarsening bookkeeping, dims=%d]" % ndim
+
+    def applies(self, receiver, args):
+        return False        # callers (SpatiallyAdaptivBase.refine) use the precondition-only form RefinementPostprocessing
+
+    def model_to_input(self, model):
+        """the state the coarsening loop starts from (what removal / sorting / rebalancing left behind) and lmax"""
+        import re
+        from pyvc import modelparse as mp
+
+        def find(suffix):
+            ks = [k for k in model if re.search(re.escape(suffix) + r"$", k)]
+            return model[sorted(ks, key=len)[0]] if ks else None
+        reb = str(model.get("rebalancing", "False")) == "True"
+        dims = []
+        for c in range(self.ndim):
+            n = mp.num(str(find("apply_remove.objects%d.len" % c) or "0")) or 0
+            n = max(0, min(int(n), 6))
+            lv = []
+            for q in (0, 1):
+                src = find("rebalance.l%d_%d" % (q, c)) if reb else None
+                if src is None:
+                    src = find("apply_remove.objects%d.levels%d" % (c, q))
+                a = mp.array(str(src)) if src is not None else None
+                dflt, m = a if a else (0, {})
+                lv.append([int(m.get(i, dflt) or 0) for i in range(n)])
+            dims.append({"n": n, "l0": lv[0], "l1": lv[1]})
+        a = mp.array(str(model.get("lmax", "")))
+        dflt, m = a if a else (1, {})
+        return {"kind": "C06.postprocessing", "ndim": self.ndim, "lmax": [int(m.get(i, dflt) or 0) for i in range(self.ndim)], "dims": dims}
+
+    def inputs(self, S):
+        conts = [coarse_container(S, str(c)) for c in range(self.ndim)]
+        meta = Obj("MetaRefinementContainer", dict(refinementContainers=Seq("list", conts), curContainer=S.int("curContainer")))
+        return {"self": Obj("SpatiallyAdaptiveSingleDimensions2", dict(dim=self.ndim, lmax=S.seq("lmax", self.ndim, I), refinement=meta, rebalancing=S.bool("rebalancing"),
+                                                                       combischeme=Obj("CombiScheme", {}), scheme=None, subtraction_value_cache=None, max_level_dict=None,
+                                                                       log_util=Obj("LogUtility", {})))}
+
+    def post(self, S, old, env, result):
+        f = env["self"].fields
+        lm = f["lmax"].to_symbolic() if f["lmax"].concrete else f["lmax"]
+        out = []
+        for c, cont in enumerate(f["refinement"].fields["refinementContainers"].items):
+            o = cont.fields["refinementObjects"]
+            j = z3.Int("qj%d" % c)
+            co = z3.Select(o.fields["coarsening_level"], j)
+            rng = z3.And(j >= 0, j < o.length)
+            out += [Cl("coarsening-is-lmax-minus-the-highest-end-point-level[dim %d]" % c, z3.ForAll([j], z3.Implies(rng, co == z3.Select(lm.arr, c) - deepest_level(o, j))), prop=True),
+                    Cl("coarsening-never-negative[dim %d]" % c, z3.ForAll([j], z3.Implies(rng, co >= 0)), prop=True),
+                    Cl("lmax-at-least-the-deepest-level-present[dim %d]" % c, z3.ForAll([j], z3.Implies(rng, z3.Select(lm.arr, c) >= deepest_level(o, j))), prop=True)]
+        return out
+
+
+CONTRACTS += [UpdateValues()] + SD_STEPS + [PostprocessingBody(1), PostprocessingBody(2)]
+ASSUMPTIONS += ["refinement_postprocessing: removal/sorting (apply_remove) and rebalancing are abstract steps that may leave ANY intervals / levels behind; raise_lmax is assumed to add "
+                "its argument to lmax[d] and to leave the other dimensions' lmax alone"]
